@@ -262,10 +262,16 @@ impl Check for C03 {
                 }
             }
         });
+        super::mixed::explore_mixed(run, "C03", owns, if deep { 6 } else { 5 }, false);
     }
 
     fn replay(&self, case: &str) -> Result<Option<Violation>, String> {
         let scene = parse_scene(case)?;
+        if let Err(v) = run_scene("C03", &scene, owns, &classify) {
+            return Ok(Some(v));
+        }
+        return Ok(super::mixed::eval_mixed(&scene, &owns, false).err());
+        #[allow(unreachable_code)]
         Ok(run_scene("C03", &scene, owns, &classify).err())
     }
 }
